@@ -8,6 +8,9 @@ void ael_cb(int n, const long long* v) {
   if (n >= 0) { if (n == 0) { g_rows->clear(); } g_y = v[0]; g_ct = v[12]; g_fr = v[13]; g_rows->push_back(jints(std::vector<long long>(v, v + 12))); return; }
   (*g_os) << Ev("Ael").kn("y", g_y).kn("ct", g_ct).kn("fr", g_fr).kv("a", jarr(g_rows->begin(), g_rows->end(), [](const std::string& s) { return s; })).str() << "\n";
 }
+// hook H2: every intersection the sweep processes, collected per Execute
+thread_local std::vector<std::string>* g_isects = nullptr;
+void isect_cb(const long long* v) { if (g_isects) g_isects->push_back(jints(std::vector<long long>(v, v + 12))); }
 int cmd_vatti(const Args& a) {
   Rng r((uint64_t)argi(a, "seed", 1)); long long n = argi(a, "n", 10); int R = (int)argi(a, "R", 48);
   std::ofstream os(args(a, "out", "/dev/stdout")); long long ncase = 0, nexec = 0;
@@ -25,14 +28,40 @@ int cmd_vatti(const Args& a) {
     guarded(os, what, 60, [&](std::ostream& o) {
       o << Ev("VCase").kv("subj", jpaths(S)).kv("clip", jpaths(C)).str() << "\n";
       std::vector<std::string> rows; g_os = &o; g_rows = &rows; Clipper2Lib::verif::ael_fn = ael_cb;
-      for (int ct = 1; ct <= 4; ++ct) for (int fr = 0; fr <= 3; ++fr) { Clipper64 c; c.AddSubject(S); c.AddClip(C); Paths64 sol; c.Execute((ClipType)ct, (FillRule)fr, sol); ++nexec; }
-      Clipper2Lib::verif::ael_fn = nullptr;
+      std::vector<std::string> isects; g_isects = &isects; Clipper2Lib::verif::intersect_fn = isect_cb;
+      for (int ct = 1; ct <= 4; ++ct) for (int fr = 0; fr <= 3; ++fr) { Clipper64 c; c.AddSubject(S); c.AddClip(C); Paths64 sol; isects.clear(); c.Execute((ClipType)ct, (FillRule)fr, sol); ++nexec;
+        if (ct == 1 || fr == 0) o << Ev("Isects").kn("ct", ct).kn("fr", fr).kv("x", jarr(isects.begin(), isects.end(), [](const std::string& s) { return s; })).str() << "\n"; }
+      Clipper2Lib::verif::ael_fn = nullptr; Clipper2Lib::verif::intersect_fn = nullptr; g_isects = nullptr;
     });
   }
   fprintf(stderr, "cases=%lld execs=%lld\n", ncase, nexec);
   return 0;
 }
 Reg reg_vatti("vatti", cmd_vatti);
+
+// "isects": a wide native sweep (coordinates ~ +-R/2, one Execute per case) recording only the intersections of hook H2:
+// VattiTrace!TIsBig states what holds for ANY input (the point lies in the scanbeam being processed); inputs are
+// natively filtered for general position so that a divergence can be escalated to the observable checks.
+int cmd_isects(const Args& a) {
+  Rng r((uint64_t)argi(a, "seed", 1)); long long n = argi(a, "n", 1000); int R = (int)argi(a, "R", 1000); const int64_t off = argi(a, "off", -500);
+  std::ofstream os(args(a, "out", "/dev/stdout")); long long ncase = 0, nis = 0;
+  for (long long b = 0; b < n; ++b) {
+    Paths64 S, C; if (!gen_gps(r, R, 1, (int)argi(a, "maxv", 4), S, C)) continue;
+    for (auto* ps : {&S, &C}) for (auto& p : *ps) for (auto& q : p) { q.x += off; q.y += off; }
+    ++ncase;
+    std::string what = "\"case\":{\"subj\":" + jpaths(S) + ",\"clip\":" + jpaths(C) + ",\"emb\":0}";
+    guarded(os, what, 60, [&](std::ostream& o) {
+      std::vector<std::string> isects; g_isects = &isects; Clipper2Lib::verif::intersect_fn = isect_cb;
+      Clipper64 c; c.AddSubject(S); c.AddClip(C); Paths64 sol; c.Execute((ClipType)(1 + b % 4), (FillRule)((b / 4) % 2), sol);
+      Clipper2Lib::verif::intersect_fn = nullptr; g_isects = nullptr;
+      if (!isects.empty()) o << Ev("IsBig").kv("subj", jpaths(S)).kv("clip", jpaths(C)).kv("x", jarr(isects.begin(), isects.end(), [](const std::string& s) { return s; })).str() << "\n";
+      nis += (long long)isects.size();
+    });
+  }
+  fprintf(stderr, "cases=%lld\n", ncase);
+  return 0;
+}
+Reg reg_isects("isects", cmd_isects);
 
 // "verts": vertex flags assigned by AddPaths_ (hook H3) for random closed and open paths with plateaus, duplicates and closing vertices
 thread_local std::vector<std::string>* g_vrows = nullptr; thread_local int g_open = 0;
